@@ -224,6 +224,17 @@ func runC15(c *core.Ctx) {
 			switch x := in.(type) {
 			case *ssa.Store:
 				fa, ok := x.Addr.(*ssa.FieldAddr)
+				if ok && core.FieldName(fa) == "Progress.Budget" {
+					// (d) the budget object is the caller's: one Budget is charged by the whole traversal, nested and
+					// re-entered walks included, because everybody holds the same pointer. The only replacement is the
+					// rewind between the preload pass and the real pass, which exists only when a Preloader is configured.
+					noPre := core.EdgesWhere(fn, func(r core.Rel) bool {
+						return r.Op == token.NEQ && ((core.IsNilConst(r.Y) && core.IsFieldRef(r.X, "Config", "Preloader")) || (core.IsNilConst(r.X) && core.IsFieldRef(r.Y, "Config", "Preloader")))
+					})
+					_, reach := core.Reach(fn, nil, isTarget(in), noPre, nil)
+					c.Check(!reach, fmt.Sprintf("%s#replaces:Progress.Budget", key), p.Pos(x.Pos()), "the budget pointer is replaced only for the rewind after a preload pass", key+" replaces Progress.Budget on a path without a Preloader: the traversal stops charging the budget object it was given (steps taken by nested or re-entered walks, or by this walk, are no longer counted against the one shared budget)")
+					return
+				}
 				if !ok || core.FieldName(fa) != "Progress.PastStartAtPath" {
 					return
 				}
